@@ -270,16 +270,20 @@ Definition hook_or_null (ix : index) (d : doc) : ival :=
 
 (* update_impl, index phase: for each index whose fields intersect the updated names: update(old, new)?, then
    record in btree_updated *)
-Fixpoint upd_loop (insf : bool) (id : Z) (names : list string) (od nd : doc) (ixs : list (index * post1))
+(* [comp] is the generated fact: when index.update fails, the code runs the reverse update on that index before
+   returning (the failing index is not in btree_updated, so the rollback closure would skip it) *)
+Fixpoint upd_loop (insf comp : bool) (id : Z) (names : list string) (od nd : doc) (ixs : list (index * post1))
   : list (index * post1 * bool) * bool :=
   match ixs with
   | [] => ([], true)
   | (ix, p) :: rest =>
     if touches ix names then
       let '(p', ok) := ix_update insf (uniq_of ix) p id (hook_or_null ix od) (hook_or_null ix nd) in
-      if ok then let '(r, ok2) := upd_loop insf id names od nd rest in ((ix, p', true) :: r, ok2)
-      else ((ix, p', false) :: map (fun e : index * post1 => (e, false)) rest, false)
-    else let '(r, ok) := upd_loop insf id names od nd rest in ((ix, p, false) :: r, ok)
+      if ok then let '(r, ok2) := upd_loop insf comp id names od nd rest in ((ix, p', true) :: r, ok2)
+      else
+        let p'' := if comp then fst (ix_update insf (uniq_of ix) p' id (hook_or_null ix nd) (hook_or_null ix od)) else p' in
+        ((ix, p'', false) :: map (fun e : index * post1 => (e, false)) rest, false)
+    else let '(r, ok) := upd_loop insf comp id names od nd rest in ((ix, p, false) :: r, ok)
   end.
 
 (* update_impl rollback closure: update(new -> old) on every recorded index; false if any restore failed *)
@@ -295,7 +299,7 @@ Fixpoint upd_rollback (insf : bool) (id : Z) (od nd : doc) (l : list (index * po
     else ((ix, p) :: rs, okr)
   end.
 
-Definition update (insf : bool) (sch : schema) (s : state) (id : Z) (fs : list (string * val)) (ft : fault)
+Definition update (insf comp : bool) (sch : schema) (s : state) (id : Z) (fs : list (string * val)) (ft : fault)
   : state * (unit + err) :=
   match get_doc (st_docs s) id with
   | None => (s, inr ENotFound)
@@ -308,7 +312,7 @@ Definition update (insf : bool) (sch : schema) (s : state) (id : Z) (fs : list (
       | inl nd =>
         if negb (validate sch nd) then (s, inr ESchema)
         else
-          let '(l, ok) := upd_loop insf id (map fst fs) od nd (st_ix s) in
+          let '(l, ok) := upd_loop insf comp id (map fst fs) od nd (st_ix s) in
           if negb ok then
             let '(ixs, restored) := upd_rollback insf id od nd l in
             (mkState ixs (st_docs s) (st_next s) (st_poison s || negb restored), inr EUnique)
@@ -353,7 +357,7 @@ Inductive res := RId (id : Z) | ROk | RRemoved (b : bool) | RErr (e : err).
 
 (* a poisoned handle refuses every mutation (mutation_lease / ensure_mutable); the caller builds the document of an
    add (Document::set_field) before the call *)
-Definition step (insf : bool) (sch : schema) (s : state) (o : op) : state * res :=
+Definition step (insf comp : bool) (sch : schema) (s : state) (o : op) : state * res :=
   match o with
   | OAdd fs ft =>
     match set_fields sch empty_doc fs with
@@ -364,17 +368,17 @@ Definition step (insf : bool) (sch : schema) (s : state) (o : op) : state * res 
     end
   | OUpdate id fs ft =>
     if st_poison s then (s, RErr EStorage) else
-    let '(s', r) := update insf sch s id fs ft in (s', match r with inl _ => ROk | inr e => RErr e end)
+    let '(s', r) := update insf comp sch s id fs ft in (s', match r with inl _ => ROk | inr e => RErr e end)
   | ORemove id ft =>
     if st_poison s then (s, RErr EStorage) else
     let '(s', r) := remove s id ft in (s', match r with inl b => RRemoved b | inr e => RErr e end)
   end.
 
-Fixpoint run (insf : bool) (sch : schema) (s : state) (os : list op) : state * list res :=
+Fixpoint run (insf comp : bool) (sch : schema) (s : state) (os : list op) : state * list res :=
   match os with
   | [] => (s, [])
-  | o :: r => let '(s1, x) := step insf sch s o in
-              let '(s2, xs) := run insf sch s1 r in (s2, x :: xs)
+  | o :: r => let '(s1, x) := step insf comp sch s o in
+              let '(s2, xs) := run insf comp sch s1 r in (s2, x :: xs)
   end.
 
 (* query_all_ids(Eq k) on the i-th index *)
